@@ -205,6 +205,22 @@ pub fn c02_pins() -> Vec<Pin> {
             expect: &[("g", 4)],
         },
         Pin {
+            name: "inc_of_aliased_element",
+            src: "unsigned char arr[4]; unsigned char r; void main() { X = 1; arr[1] = 3; r = 0; if (arr[X] == 3) { arr[1]++; if (arr[X] == 4) r = 1; } }",
+            init: &[],
+            x: 0,
+            y: 0,
+            expect: &[("r", 1)],
+        },
+        Pin {
+            name: "compare_fold_symbolic_immediate",
+            src: "unsigned char pad[15]; unsigned char arr[4]; unsigned char r; void main() { r = 0; X = arr; if (X != 144) r = 1; }",
+            init: &[],
+            x: 0,
+            y: 0,
+            expect: &[("r", 0)],
+        },
+        Pin {
             name: "removed_lda_flags",
             src: "unsigned char b, c, r; void main() { b = 0; Y = c; b = 0; b = 0; if (b) goto L1; b = 3; L1: ; r = b; }",
             init: &[("c", 129)],
